@@ -4,10 +4,12 @@
 //
 //   obj (D0 D1 …) (A0 A1 …)
 //
-//   D    ::= (PARENT (ATTR*) EQ EIT SER [(k (NAME VAL)*)] [(p (NAME TY)*)])
+//   D    ::= (PARENT (ATTR*) EQ EIT SER [(k (NAME VAL)*)] [(p (NAME TY)*)] [(fn (NAME TY [o] [f])*)])
 //                                                definition i is named T<i>; PARENT ::= - | <index of an earlier definition>;
 //                                                the optional elements are `constants => {NAME => VAL, …}` and
-//                                                `type_parameters => {NAME => TY, …}`
+//                                                `type_parameters => {NAME => TY, …}` and `functions => {NAME => Callable[[0,0],TY], …}`
+//                                                (`o` / `f`: override / final => true; a function never shares its name with
+//                                                an attribute or constant of its chain, equality / serialization name none)
 //   ATTR ::= (NAME TY KIND DFLT [o] [f|nf])
 //                                                NAME: plain member name (atom); KIND ::= n | c | d | g | r
 //                                                (normal, constant, derived, given_or_derived, reference); DFLT ::= - | VAL;
@@ -358,6 +360,18 @@ type attr struct {
 // isFinal: declared, and implied for a constant
 func (a *attr) isFinal() bool { return a.kind == "c" || a.final == "f" }
 
+// fn: a member function `name => Callable[[0,0],ret]` (with `override => true` / `final => true`)
+type fn struct {
+	name     string
+	ret      *ty
+	override bool
+	final    bool
+}
+
+func (f *fn) callable() px.Type {
+	return types.NewCallableType(types.NewTupleType([]px.Type{}, types.NewIntegerType(0, 0)), f.ret.px(), nil)
+}
+
 type def struct {
 	parent int // -1 = none
 	attrs  []attr
@@ -368,11 +382,13 @@ type def struct {
 	hasSer bool
 	consts []attr // `constants => {name => value}`: kind c, dflt = the value, ty = the type inferred from it
 	params []attr // `type_parameters => {name => Type}`: name and ty only
+	funcs  []fn   // `functions => {name => Callable[[0,0],ret], …}`
 	// deco > 0 (implementation-only op `objd`): definition number deco-1 additionally declares a member function
 	// fn<number> (and re-declares its parent's with `override => true` when the number is odd) and carries a type-level
 	// annotation; neither has any bearing on construction, Get, init-hash or equality
 	deco       int
 	decoParent int
+	decoFns    bool // declare the decoration's functions (not when a definition of the op has functions of its own)
 }
 
 type action struct {
@@ -437,20 +453,51 @@ func namesOf(es []sx.Sexp) []string {
 }
 
 func defOf(e sx.Sexp) def {
-	if !e.IsList || len(e.List) < 5 || len(e.List) > 7 {
+	if !e.IsList || len(e.List) < 5 || len(e.List) > 8 {
 		panic(fmt.Errorf("bad definition %s", e))
 	}
 	tags := ""
 	for _, x := range e.List[5:] {
 		tags += x.Tag()
 	}
-	if tags != "" && tags != "k" && tags != "p" && tags != "kp" {
+	okTags := map[string]bool{"": true, "k": true, "p": true, "kp": true, "fn": true, "kfn": true, "pfn": true, "kpfn": true}
+	if !okTags[tags] {
 		panic(fmt.Errorf("bad definition %s", e))
 	}
 	d := def{parent: -1}
+	tail := e.List[5:]
+	if strings.HasSuffix(tags, "fn") {
+		var ns []string
+		for _, x := range tail[len(tail)-1].Args() {
+			if !x.IsList || len(x.List) < 2 || len(x.List) > 4 {
+				panic(fmt.Errorf("bad function %s", x))
+			}
+			f := fn{name: nameOf(x.List[0]), ret: tyOf(x.List[1])}
+			if strings.Contains(f.ret.sexp().String(), "var") {
+				panic(fmt.Errorf("a Variant in the return type of a function %s", x))
+			}
+			flags := x.List[2:]
+			if len(flags) > 0 && atomOf(flags[0]) == "o" {
+				f.override, flags = true, flags[1:]
+			}
+			if len(flags) > 0 && atomOf(flags[0]) == "f" {
+				f.final, flags = true, flags[1:]
+			}
+			if len(flags) > 0 {
+				panic(fmt.Errorf("bad function flags %s", x))
+			}
+			d.funcs = append(d.funcs, f)
+			ns = append(ns, f.name)
+		}
+		if repeats(ns) {
+			panic(fmt.Errorf("functions with a repeated key %s", e))
+		}
+		tail = tail[:len(tail)-1]
+		tags = strings.TrimSuffix(tags, "fn")
+	}
 	if strings.HasSuffix(tags, "p") {
 		var ns []string
-		for _, kv := range e.List[len(e.List)-1].Args() {
+		for _, kv := range tail[len(tail)-1].Args() {
 			if !kv.IsList || len(kv.List) != 2 {
 				panic(fmt.Errorf("bad type parameter %s", kv))
 			}
@@ -624,13 +671,44 @@ type spec struct {
 	eit  []bool
 	// per type: the type parameters, inherited first
 	tparams [][]attr
+	// per type: the member functions, inherited first, an overriding one in place (Functions(true)); whether the type is an
+	// INTERFACE (no attributes, and the parent is one or — without a parent — it declares a function)
+	funcs [][]fn
+	iface []bool
 	deco    bool // every definition also declares functions (op `objd`): a type without attributes is an INTERFACE
 }
 
 // isInterface: with functions declared (op `objd`), a type that has no attributes and whose ancestors have none is an
 // interface: pcore matches it structurally (by its functions), so whether a stranger is an instance is not judged
 func (s *spec) isInterface(t int) bool {
-	return s.deco && len(s.all[t]) == 0
+	return (s.deco && len(s.all[t]) == 0) || s.iface[t]
+}
+
+// memberFn: the return type of the function member `name` of type t (nil: none, or the nearest member of that name is an
+// attribute) — names never collide along a chain in the universe, so the functions of the chain decide
+func (s *spec) memberFn(t int, name string) *ty {
+	for _, a := range s.all[t] {
+		if a.name == name {
+			return nil
+		}
+	}
+	for i := range s.funcs[t] {
+		if s.funcs[t][i].name == name {
+			return s.funcs[t][i].ret
+		}
+	}
+	return nil
+}
+
+// implements: type t has every function of the interface p as a function member of an EQUAL type
+func (s *spec) implements(t, p int) bool {
+	for _, f := range s.funcs[p] {
+		r := s.memberFn(t, f.name)
+		if r == nil || r.sexp().String() != f.ret.sexp().String() {
+			return false
+		}
+	}
+	return true
 }
 
 func (s *spec) ancestorOrSelf(p, t int) bool {
@@ -746,6 +824,56 @@ func mkSpec(defs []def) *spec {
 			tps = append(tps, q)
 		}
 		s.tparams = append(s.tparams, tps)
+		var fns []fn
+		if d.parent >= 0 {
+			fns = append(fns, s.funcs[d.parent]...)
+		}
+		for _, f := range d.funcs {
+			k := -1
+			for j := range fns {
+				if fns[j].name == f.name {
+					k = j
+				}
+			}
+			// the universe: a function never shares its name with an attribute or constant of its chain
+			for _, a := range all {
+				if a.name == f.name {
+					panic(fmt.Errorf("definition %d: function %s shares its name with an attribute of the chain", i, f.name))
+				}
+			}
+			if k >= 0 {
+				// a proper override: `override => true`, the inherited function not final, the type accepted by the inherited one
+				if !f.override || fns[k].final || !asgSpec(fns[k].ret, f.ret) {
+					wf = false
+				}
+				fns[k] = f
+			} else {
+				if f.override {
+					wf = false
+				}
+				fns = append(fns, f)
+			}
+		}
+		for _, a := range all {
+			for _, f := range fns {
+				if a.name == f.name {
+					panic(fmt.Errorf("definition %d: attribute %s shares its name with a function of the chain", i, a.name))
+				}
+			}
+		}
+		for _, n := range append(append([]string{}, d.eq...), d.ser...) {
+			for _, f := range fns {
+				if n == f.name {
+					panic(fmt.Errorf("definition %d: equality / serialization names the function %s", i, n))
+				}
+			}
+		}
+		s.funcs = append(s.funcs, fns)
+		if d.parent >= 0 {
+			s.iface = append(s.iface, len(all) == 0 && s.iface[d.parent])
+		} else {
+			s.iface = append(s.iface, len(all) == 0 && len(d.funcs) > 0)
+		}
 		s.all = append(s.all, all)
 		find := func(n string) *sattr {
 			for k := range all {
@@ -916,13 +1044,33 @@ func (d *def) text(name, parent string) string {
 	if d.hasSer {
 		parts = append(parts, "serialization => "+qs(d.ser))
 	}
+	if len(d.funcs) > 0 {
+		var fs []string
+		for _, f := range d.funcs {
+			if !f.override && !f.final {
+				fs = append(fs, quote(f.name)+" => Callable[[0,0],"+f.ret.text()+"]")
+				continue
+			}
+			xs := []string{"type => Callable[[0,0]," + f.ret.text() + "]"}
+			if f.override {
+				xs = append(xs, "override => true")
+			}
+			if f.final {
+				xs = append(xs, "final => true")
+			}
+			fs = append(fs, quote(f.name)+" => {"+strings.Join(xs, ", ")+"}")
+		}
+		parts = append(parts, "functions => {"+strings.Join(fs, ", ")+"}")
+	}
 	if d.deco > 0 {
 		fs := []string{fmt.Sprintf("'fn%d' => Callable[[0,0],Integer]", d.deco-1)}
 		if d.decoParent >= 0 && d.deco%2 == 0 {
 			fs = append(fs, fmt.Sprintf("'fn%d' => {type => Callable[[0,0],Integer], override => true}", d.decoParent))
 		}
-		parts = append(parts, "functions => {"+strings.Join(fs, ", ")+"}",
-			fmt.Sprintf("annotations => {TagsAnnotation => {'tags' => {'level' => 'l%d'}}}", d.deco-1))
+		if d.decoFns {
+			parts = append(parts, "functions => {"+strings.Join(fs, ", ")+"}")
+		}
+		parts = append(parts, fmt.Sprintf("annotations => {TagsAnnotation => {'tags' => {'level' => 'l%d'}}}", d.deco-1))
 	}
 	sb.WriteString(strings.Join(parts, ", "))
 	if parent == "" {
@@ -1034,6 +1182,25 @@ func (d *def) initHash2(name string, parent px.Type, parentName string) *types.H
 	if d.hasSer {
 		es = append(es, types.WrapHashEntry2("serialization", strs(d.ser)))
 	}
+	if len(d.funcs) > 0 {
+		var fs []*types.HashEntry
+		for i := range d.funcs {
+			f := &d.funcs[i]
+			if !f.override && !f.final {
+				fs = append(fs, types.WrapHashEntry2(f.name, f.callable()))
+				continue
+			}
+			xs := []*types.HashEntry{types.WrapHashEntry2("type", f.callable())}
+			if f.override {
+				xs = append(xs, types.WrapHashEntry2("override", types.WrapBoolean(true)))
+			}
+			if f.final {
+				xs = append(xs, types.WrapHashEntry2("final", types.WrapBoolean(true)))
+			}
+			fs = append(fs, types.WrapHashEntry2(f.name, types.WrapHash(xs)))
+		}
+		es = append(es, types.WrapHashEntry2("functions", types.WrapHash(fs)))
+	}
 	if d.deco > 0 {
 		callable := types.NewCallableType(types.NewTupleType([]px.Type{}, types.NewIntegerType(0, 0)), types.DefaultIntegerType(), nil)
 		fs := []*types.HashEntry{types.WrapHashEntry2(fmt.Sprintf("fn%d", d.deco-1), callable)}
@@ -1041,7 +1208,10 @@ func (d *def) initHash2(name string, parent px.Type, parentName string) *types.H
 			fs = append(fs, types.WrapHashEntry2(fmt.Sprintf("fn%d", d.decoParent), types.WrapHash([]*types.HashEntry{
 				types.WrapHashEntry2("type", callable), types.WrapHashEntry2("override", types.WrapBoolean(true))})))
 		}
-		es = append(es, types.WrapHashEntry2("functions", types.WrapHash(fs)),
+		if d.decoFns {
+			es = append(es, types.WrapHashEntry2("functions", types.WrapHash(fs)))
+		}
+		es = append(es,
 			types.WrapHashEntry(types.WrapString("annotations"), types.WrapHash([]*types.HashEntry{types.WrapHashEntry(types.TagsAnnotationType,
 				types.WrapHash([]*types.HashEntry{types.WrapHashEntry2("tags", types.WrapHash([]*types.HashEntry{
 					types.WrapHashEntry2("level", types.WrapString(fmt.Sprintf("l%d", d.deco-1)))}))}))})))
@@ -1632,7 +1802,14 @@ func (r *run) predicate(c px.Context, s *spec, acts []action, hashes []*types.Ha
 			if cls := safely(func() { got = px.IsInstance(r.types[p], o) }); cls != "" {
 				add("fault", "IsInstance(T%d, object %d): %s", p, k, cls)
 			} else if want && !got {
-				add("subtype-not-instance", "object %d of T%d is not an instance of its ancestor T%d", k, t, p)
+				if s.iface[p] && !s.implements(t, p) {
+					// known finding C17-iface-override-covariant: a function of the interface ancestor overridden at a narrower type
+					add("iface-override-covariant", "object %d of T%d is not an instance of its interface ancestor T%d (a function was overridden at a narrower type)", k, t, p)
+				} else {
+					add("subtype-not-instance", "object %d of T%d is not an instance of its ancestor T%d", k, t, p)
+				}
+			} else if !want && s.iface[p] && got != s.implements(t, p) {
+				add("iface-structural", "object %d of T%d: IsInstance(interface T%d) = %v, T%d has all its functions at equal types = %v", k, t, p, got, t, !got)
 			} else if !want && got && !s.isInterface(p) {
 				if s.ancestorOrSelf(t, p) {
 					add("ancestor-instance-of-sub", "object %d of T%d is an instance of the subtype T%d", k, t, p)
@@ -1851,10 +2028,14 @@ func exec(c px.Context, op string, args []sx.Sexp) core.Result {
 		return core.Result{Out: "bad-op", Pred: "n/a"}
 	}
 	if deco {
+		own := false
 		for i := range defs {
-			defs[i].deco, defs[i].decoParent = i+1, defs[i].parent
+			own = own || len(defs[i].funcs) > 0
 		}
-		s.deco = true
+		for i := range defs {
+			defs[i].deco, defs[i].decoParent, defs[i].decoFns = i+1, defs[i].parent, !own
+		}
+		s.deco = !own // (with functions of their own the definitions carry the annotation only)
 	}
 	n := atomic.AddInt64(&opCounter, 1)
 	msgProblems = nil
@@ -1935,7 +2116,7 @@ func exec(c px.Context, op string, args []sx.Sexp) core.Result {
 // one class is reported per op: the most specific first
 func classRank(c string) int {
 	for i, k := range []string{"fault", "schema-admitted-rejected", "renderings-differ", "reinit-differs", "new-rejected", "get-wrong", "get-constant", "pos-named-differ",
-		"inithash-roundtrip", "equality-wrong", "equality-include-type", "subtype-not-instance", "ancestor-instance-of-sub", "unrelated-instance", "type-hash-key", "message-args", "reinit-constant-undef", "tparam-explicit-undef"} {
+		"inithash-roundtrip", "equality-wrong", "equality-include-type", "subtype-not-instance", "ancestor-instance-of-sub", "unrelated-instance", "iface-structural", "type-hash-key", "message-args", "reinit-constant-undef", "tparam-explicit-undef", "iface-override-covariant"} {
 		if c == k {
 			return i
 		}
